@@ -480,6 +480,9 @@ func lexQString(l *lexer) stateFn {
 			over = true
 			text = append(text, []byte(string(c))...)
 		case '\\':
+			// Remember where the backslash is: after reading a line
+			// break the current column no longer tells.
+			bline, bcol := l.line, l.col-1
 			switch c = l.next(); c {
 			case 'n':
 				c = '\n'
@@ -495,7 +498,7 @@ func lexQString(l *lexer) stateFn {
 				// (e..g., \{) or to be part of of a special
 				// sequence such as \S.
 				if !l.inPattern {
-					l.ErrorfAt(l.line, l.col-2, `invalid escape sequence: \`+string(c))
+					l.ErrorfAt(bline, bcol, `invalid escape sequence: \`+string(c))
 				}
 				text = append(text, '\\')
 			}
